@@ -78,6 +78,12 @@ type route struct {
 	// cannot be written while the copy exists (callee-local copy)
 	Setup func(s *shape) (ops []Op, orig, cp *Place)
 	Param bool
+	// composite routes: the argument expression and call form of the call that binds the parameter
+	Arg  *RV
+	Form string
+	// composite route (a call result handed straight to a by-value boundary): enumerated with
+	// flat mutations only — nested writes leak along every route (known family leak:<route>:nested…)
+	Composite bool
 }
 
 var (
@@ -134,6 +140,64 @@ var routes = []route{
 		return append(ops, Op{K: "clone", X: 3, Y: 2}), Pr(2, 0), Pr(3, 0)
 	}},
 }
+
+// composite routes: producer (a call that returns the owner's own array) × by-value sink
+func compositeRoutes() []route {
+	var rs []route
+	type prod struct {
+		name  string
+		owner *Place
+		pre   func(s *shape) []Op
+	}
+	prods := []prod{
+		{"getter", Pr(2, 0), func(s *shape) []Op { return append([]Op{{K: "new", X: 2}}, s.build(Pr(2, 0))...) }},
+		{"elemcall", Ix(v2, KI(1)), func(s *shape) []Op {
+			return append([]Op{{K: "setVar", X: 2, R: RLit(LArr(LInt(0), LInt(0)))}}, s.build(Ix(v2, KI(1)))...)
+		}},
+	}
+	for _, pd := range prods {
+		pd := pd
+		e := RCall(pd.owner)
+		for _, form := range []string{"", "method", "static", "ctor", "closure", "named"} {
+			nm := form
+			if nm == "" {
+				nm = "func"
+			}
+			rs = append(rs, route{Name: pd.name + ">" + nm, Param: true, Composite: true, Arg: e, Form: form,
+				Setup: func(s *shape) ([]Op, *Place, *Place) { return pd.pre(s), pd.owner, v3 }})
+		}
+		rs = append(rs, route{Name: pd.name + ">assign", Composite: true, Setup: func(s *shape) ([]Op, *Place, *Place) {
+			return append(pd.pre(s), Op{K: "setVar", X: 1, R: e}), pd.owner, v1
+		}})
+		rs = append(rs, route{Name: pd.name + ">elemstore", Composite: true, Setup: func(s *shape) ([]Op, *Place, *Place) {
+			ops := append(pd.pre(s), Op{K: "setVar", X: 1, R: RLit(LArr(LInt(0), LInt(0)))})
+			return append(ops, setI(v1, KI(1), e)), pd.owner, Ix(v1, KI(1))
+		}})
+		rs = append(rs, route{Name: pd.name + ">elemappend", Composite: true, Setup: func(s *shape) ([]Op, *Place, *Place) {
+			ops := append(pd.pre(s), Op{K: "setVar", X: 1, R: RLit(LArr(LInt(0)))})
+			return append(ops, app(v1, e)), pd.owner, Ix(v1, KI(1))
+		}})
+		// property store / setter: into the other property of the object (getter), or of a new object
+		obj, pre2 := 2, []Op(nil)
+		if pd.name != "getter" {
+			obj, pre2 = 3, []Op{{K: "new", X: 3}}
+		}
+		for _, rt := range []string{"", "setter"} {
+			rt := rt
+			nm := "propstore"
+			if rt != "" {
+				nm = rt
+			}
+			rs = append(rs, route{Name: pd.name + ">" + nm, Composite: true, Setup: func(s *shape) ([]Op, *Place, *Place) {
+				ops := append(pd.pre(s), pre2...)
+				return append(ops, Op{K: "setProp", X: obj, P: 1, R: e, Route: rt}), pd.owner, Pr(obj, 1)
+			}})
+		}
+	}
+	return rs
+}
+
+func init() { routes = append(routes, compositeRoutes()...) }
 
 func routeByName(n string) *route {
 	for i := range routes {
@@ -240,6 +304,9 @@ func nestedMutation(name string) bool { return len(name) > 6 && name[:6] == "nes
 
 // triple builds the enumerated case (shape × route × mutation × side).
 func triple(s *shape, r *route, mu *mutation, side string) *Case {
+	if r.Composite && nestedMutation(mu.Name) {
+		return nil
+	}
 	ops, orig, cp := r.Setup(s)
 	target := cp
 	if side == "orig" {
@@ -253,7 +320,7 @@ func triple(s *shape, r *route, mu *mutation, side string) *Case {
 		if mo == nil {
 			return nil
 		}
-		ops = append(ops, Op{K: "call", X: 3, Y: 0, Inner: []Op{*mo}})
+		ops = append(ops, Op{K: "call", X: 3, Y: 0, Inner: []Op{*mo}, Arg: r.Arg, Form: r.Form})
 	} else {
 		mo := mu.Make(target, s)
 		if mo == nil {
